@@ -504,3 +504,105 @@ def c06_family(tier):
         mk('tee-ct5000/a', tee(), ['a'], [0, 5200], ct=5000)
 
     return out
+
+
+# ---- C08 family: lifecycle and exit propagation ----------------------------------------------------------------------------
+
+POLICIES = ['all', 'clean', 'error', 'none']
+FLAGS    = {'all': 3, 'clean': 1, 'error': 2, 'none': 0}
+
+
+def c08_pipelines(period=40, N=2000):
+    """name -> (filters builder, positions to try)"""
+
+    return {
+        'chain3': (lambda: [src(N, period=period), relay('mid', ['src']), sink('snk', ['mid'])], ['src', 'mid', 'snk']),
+        'tee':    (lambda: [src(N, period=period), sink('a', ['src']), sink('b', ['src;main>x'])], ['src', 'a']),
+        'rejoin': (lambda: rejoin(N, 2, ['pass', 'pass'], ['b1', 'b2;main>other'], required=False, period=period), ['b1']),
+    }
+
+
+def c08_endings(victim_kind):
+    """ending name -> (dict merged into the victim filter entry, scenario extras, expected own kind 'clean'|'error'|'init-error')"""
+
+    e = {
+        'exit-setup':     ({'faults': [{'at': 'setup', 'what': 'exit'}]}, {}, 'clean'),
+        'exit-process2':  ({'faults': [{'at': 'process', 'k': 2, 'what': 'exit'}]}, {}, 'clean'),
+        'exit-shutdown':  ({'faults': [{'at': 'process', 'k': 2, 'what': 'exit'}, {'at': 'shutdown', 'what': 'exit'}]}, {}, 'clean'),
+        'raise-setup':    ({'faults': [{'at': 'setup', 'what': 'raise'}]}, {}, 'error'),
+        'raise-process0': ({'faults': [{'at': 'process', 'k': 0, 'what': 'raise'}]}, {}, 'error'),
+        'raise-process2': ({'faults': [{'at': 'process', 'k': 2, 'what': 'raise'}]}, {}, 'error'),
+        'raise-shutdown': ({'faults': [{'at': 'process', 'k': 2, 'what': 'exit'}, {'at': 'shutdown', 'what': 'raise'}]}, {}, 'error'),
+        'stop-evt':       ({}, {'stop_at': 'VICTIM@170'}, 'clean'),
+        'exit-after-sec': ({'config': {'exit_after': 0.3}}, {}, 'clean'),
+        'exit-after-str': ({'config': {'exit_after': '0:00.3'}}, {}, 'clean'),
+        'exit-after-at':  ({'config': {'exit_after': '@2025-06-15T15:06:40.300+00:00'}}, {}, 'clean'),
+        'init-bad-source': ({'sources_raw': ['file:///nowhere']}, {}, 'init-error'),
+    }
+
+    if victim_kind != 'sink':      # has outputs
+        e['raise-send']       = ({'ops_extra': [('callable_raise', 2)]}, {}, 'error')
+        e['init-bind-first']  = ({}, {'fail_bind': 'PUB'}, 'init-error')
+        e['init-bind-second'] = ({}, {'fail_bind': 'PULL'}, 'init-error')
+
+    if victim_kind != 'source':    # has sources
+        e['raise-recv'] = ({}, {'inject': 'VICTIM@170'}, 'error')
+
+    return e
+
+
+def c08_family(tier):
+    out  = []
+    full = tier == 'thorough'
+    pipes = c08_pipelines()
+
+    for pname, (build, positions) in pipes.items():
+        for victim in positions:
+            vk = 'source' if victim == 'src' else 'sink' if victim in ('snk', 'a', 'b') else 'relay'
+
+            for ename, (fpatch, extras, kind) in c08_endings(vk).items():
+                if kind == 'init-error' or ename.startswith('exit-after') or ename == 'exit-shutdown':
+                    pols = [('clean', 'all')]      # policies do not matter / default policy
+                elif full or (pname == 'chain3' and victim == 'mid' and ename in ('exit-process2', 'raise-process2')):
+                    pols = [(p, o) for p in POLICIES for o in POLICIES]
+                else:
+                    pols = [('all', 'all'), ('clean', 'all'), ('error', 'clean'), ('none', 'all'), ('all', 'none'), ('error', 'error')]
+
+                if ename == 'init-bad-source' and vk == 'source':
+                    continue
+
+                for prop, obey in pols:
+                    fs = build()
+
+                    for f in fs:
+                        f['run'] = {'prop_exit': prop, 'obey_exit': obey}
+
+                        if f['name'] == victim:
+                            for k, v in fpatch.items():
+                                if k == 'ops_extra':
+                                    f['ops'] = list(f.get('ops', ())) + v
+                                elif k == 'sources_raw':
+                                    f.setdefault('config', {})['sources'] = v
+                                elif k == 'config':
+                                    f.setdefault('config', {}).update(v)
+                                else:
+                                    f[k] = v
+
+                            if ename.endswith('-setup'):
+                                f['start_at'] = 60      # neighbours are up and connected when the victim fails in setup
+
+                    s = scn(f'{pname}/{victim}/{ename}/{prop}-{obey}', fs, profile='TIMELY', timely_ms=20, quiet_ms=10**9, horizon_ms=900)
+                    s['c08'] = {'victim': victim, 'ending': ename, 'kind': kind, 'prop': prop, 'obey': obey}
+
+                    for k, v in extras.items():
+                        if k == 'stop_at':
+                            s['stop_at'] = [{'f': victim, 'at_ms': int(v.split('@')[1])}]
+                        elif k == 'inject':
+                            up = next(u for u, _, _, _ in sources_of(next(f for f in fs if f['name'] == victim)))
+                            s['inject'] = [{'to': victim, 'from': up, 'at_ms': int(v.split('@')[1])}]
+                        elif k == 'fail_bind':
+                            s['fail_bind'] = {f'ipc://{victim}' + ('.req' if v == 'PULL' else ''): 0}
+
+                    out.append(s)
+
+    return out
